@@ -228,6 +228,54 @@ def shape_y(kind, y, t, rs):
     return y
 
 
+def nested_pad_kwargs(sel, two_d, n, m):
+    """pad_kwargs dictionaries whose documented options are given as ARRAYS, in the dtype the library asks for
+    (so that np.asarray is a no-copy and the library holds the caller's array), with in-range, boundary and
+    out-of-range values (windows longer than the data are legal: 'use every point')"""
+    big = 10 * max(n, m)
+    i64 = np.int64
+    if two_d:
+        v = [
+            {'mode': 'extrapolate', 'extrapolate_window': np.array([2, 3], dtype=i64)},
+            {'mode': 'extrapolate', 'extrapolate_window': np.array([m + 20, 3], dtype=i64)},
+            {'mode': 'extrapolate', 'extrapolate_window': np.array([2, big], dtype=i64)},
+            {'mode': 'extrapolate', 'extrapolate_window': np.array([2, 3, big, 1], dtype=i64)},
+            {'mode': 'extrapolate', 'extrapolate_window': np.array([1, 1], dtype=i64)},
+            {'mode': 'extrapolate', 'extrapolate_window': np.array(big, dtype=i64)},
+            {'mode': 'constant', 'constant_values': np.array([1.0, 2.0])},
+            {'mode': 'edge'},
+        ]
+    else:
+        v = [
+            {'mode': 'extrapolate', 'extrapolate_window': np.array([3, 4], dtype=i64)},
+            {'mode': 'extrapolate', 'extrapolate_window': np.array([n + 50, 5], dtype=i64)},
+            {'mode': 'extrapolate', 'extrapolate_window': np.array([5, big], dtype=i64)},
+            {'mode': 'extrapolate', 'extrapolate_window': np.array([big, big], dtype=i64)},
+            {'mode': 'extrapolate', 'extrapolate_window': np.array([n, n], dtype=i64)},
+            {'mode': 'extrapolate', 'extrapolate_window': np.array([1, 1], dtype=i64)},
+            {'mode': 'extrapolate', 'extrapolate_window': np.array(big, dtype=i64)},
+            {'extrapolate_window': np.array([2, n + 1], dtype=np.intp)},
+            {'mode': 'extrapolate', 'extrapolate_window': np.array([3.0, 4.0])},
+            {'mode': 'constant', 'constant_values': np.array([1.0, 2.0])},
+            {'mode': 'linear_ramp', 'end_values': np.array([1.0, 2.0])},
+            {'mode': 'reflect'},
+        ]
+    return v[sel % len(v)]
+
+
+def nested_window_kwargs(sel, n):
+    big = 10 * n
+    v = [
+        {'min_half_window': np.array(2), 'max_half_window': np.array(9), 'increment': 1, 'max_hits': 2},
+        {'min_half_window': np.array(1, dtype=np.int64), 'max_half_window': np.array(big, dtype=np.int64),
+         'increment': np.array(1, dtype=np.int64), 'max_hits': np.array(1, dtype=np.int64)},
+        {'min_half_window': np.array([2], dtype=np.int64), 'max_half_window': np.array([7], dtype=np.int64)},
+        {'window_tol': np.array(1e-6), 'max_hits': np.array(3)},
+        {'window_tol': np.array(1e300), 'min_half_window': np.array(big, dtype=np.int64)},
+    ]
+    return v[sel % len(v)]
+
+
 def sig_params(name, two_d):
     from pybaselines import Baseline, Baseline2D
     return inspect.signature(getattr(Baseline2D if two_d else Baseline, name)).parameters
@@ -238,7 +286,8 @@ def build_case(rng, two_d, name, mode):
     params = sig_params(name, two_d)
     c = {'two_d': two_d, 'method': name, 'seed': rng.randrange(10 ** 6), 'mode': mode,
          'n': rng.choice([31, 40, 47]) if not two_d else rng.choice([12, 14]), 'm': rng.choice([11, 13]),
-         'data': 'c', 'x': 'sorted', 'xlay': 'c', 'args': {}, 'raise_at': None, 'extra': {}, 'ykind': 'peaks'}
+         'data': 'c', 'x': 'sorted', 'xlay': 'c', 'args': {}, 'raise_at': None, 'extra': {}, 'ykind': 'peaks',
+         'optsel': rng.randrange(10 ** 4)}
     lay = LAYOUTS_2D if two_d else LAYOUTS_1D
     arr_lay = ['c', 'strided', 'list', 'int', 'f32', 'ro'] + ([] if two_d else ['col', 'neg'])
     if mode == 'layout':
@@ -293,6 +342,8 @@ def build_case(rng, two_d, name, mode):
         rng.shuffle(cands)
         for p in cands[:rng.choice([0, 1, 1, 2, 3])]:
             c['extra'][p] = rng.choice(BRANCH_VALUES[p])
+    if not two_d and name != 'interp_pts' and mode in ('layout', 'branch', 'param') and rng.random() < 0.25:
+        c['functional'] = True     # pybaselines.<module>.<method>(data, x_data=...)
     if mode == 'raise':
         c['raise_at'] = rng.choice([1, 1, 2, 3, 5])
     if mode == 'param':
@@ -414,28 +465,21 @@ def materialise(c):
                 if inner in ('aspls', 'pspline_aspls') and how == 'nested':
                     d['alpha'] = arr(0.5 + 0.5 * rs.random_sample(shape), 'c')
                 if _inner_accepts(itd, inner, 'pad_kwargs') and how == 'nested':
-                    d['pad_kwargs'] = {'mode': 'extrapolate', 'extrapolate_window': np.array([3, 4])}
+                    d['pad_kwargs'] = nested_pad_kwargs(c.get('optsel', 0) // 3, itd, n, m)
                 if _inner_accepts(itd, inner, 'window_kwargs') and how == 'nested':
-                    d['window_kwargs'] = {'min_half_window': 2, 'max_hits': 2}
+                    d['window_kwargs'] = nested_window_kwargs(c.get('optsel', 0) // 5, n)
                 if _inner_accepts(itd, inner, 'poly_order') and name not in ('adaptive_minmax', 'optimize_extended_range'):
                     d['poly_order'] = np.array([2, 2]) if itd else np.array(2)
                 if _inner_accepts(itd, inner, 'lam') and name != 'optimize_extended_range' and inner != 'fabc':
                     d['lam'] = np.array([50.0, 50.0]) if itd else np.array([500.0])
             kw[p] = d
         elif p == 'pad_kwargs':
-            if two_d:
-                d = {'mode': 'reflect'} if how == 'plain' else {'mode': 'extrapolate', 'extrapolate_window': np.array([2, 3])}
-            else:
-                d = {'mode': 'reflect'} if how == 'plain' else {'mode': 'extrapolate', 'extrapolate_window': np.array([3, 4])}
-                if how == 'nested':
-                    d = {'mode': 'constant', 'constant_values': np.array([1.0, 2.0])}
+            d = {'mode': 'reflect'} if how == 'plain' else nested_pad_kwargs(c.get('optsel', 0), two_d, n, m)
             kw[p] = d
         elif p == 'window_kwargs':
             d = {'min_half_window': 2, 'max_hits': 2}
             if how != 'plain':
-                d = {'min_half_window': np.array(2), 'max_half_window': np.array(9), 'increment': 1, 'max_hits': 2}
-            if how == 'nested':
-                d['window_tol'] = np.array(1e-6)
+                d = nested_window_kwargs(c.get('optsel', 0) // 7, n)
             kw[p] = d
     if name == 'interp_pts':
         kw = {k: v for k, v in kw.items() if v is not None}
@@ -482,6 +526,16 @@ def _inject(k):
     return undo
 
 
+def functional(name):
+    import importlib
+    for modname in ('whittaker', 'polynomial', 'morphological', 'spline', 'smooth', 'classification', 'misc', 'optimizers'):
+        mod = importlib.import_module('pybaselines.' + modname)
+        f = getattr(mod, name, None)
+        if callable(f) and not name.startswith('_'):
+            return f
+    return None
+
+
 def call(c, objs=None):
     """Runs the case.  Returns (outcome, problems) where outcome is 'ok' or the exception class name and
     problems is a list of (argument path, description) for every caller-owned object that changed."""
@@ -498,10 +552,15 @@ def call(c, objs=None):
     try:
         with warnings.catch_warnings():
             warnings.simplefilter('ignore')
-            fitter = (Baseline2D if c['two_d'] else Baseline)(**ctor)
-            res = getattr(fitter, c['method'])(data, **kw)
-            if c.get('twice'):
+            func = functional(c['method']) if c.get('functional') and not c['two_d'] else None
+            if func is not None:
+                # the functional interface: pybaselines.<module>.<method>(data, x_data=..., ...)
+                res = func(data, **kw, **ctor)
+            else:
+                fitter = (Baseline2D if c['two_d'] else Baseline)(**ctor)
                 res = getattr(fitter, c['method'])(data, **kw)
+                if c.get('twice'):
+                    res = getattr(fitter, c['method'])(data, **kw)
     except Exception as exc:  # noqa
         outcome = type(exc).__name__
         msg = str(exc)[:200]
@@ -842,6 +901,94 @@ def seq_param_cases(ctx):
                          {'kind': 'seqparam', 'two_d': two_d, 'method': name, 'spec': {a: list(b) for a, b in spec.items()}})
 
 
+def utils_call_list():
+    """(description, function name, positional args, keyword args) for the public functions of pybaselines.utils (and the
+    padding helper behind them), every array-like argument given as an ndarray in the dtype the function converts to (no copy)
+    as well as in copying dtypes / lists, with in-range, boundary and out-of-range values.  Deterministic."""
+    rs = np.random.RandomState(11)
+    calls = []
+    for n in (9, 40):
+        x = np.linspace(0.0, 10.0, n)
+        y = 5 + np.sin(x) + 0.1 * rs.standard_normal(n)
+        big = 10 * n
+        for lay in ('c', 'strided'):
+            yy = lambda: lay1(y, lay)     # noqa
+            ews = [np.array([3, 4], dtype=np.int64), np.array([n + 5, 2], dtype=np.int64), np.array([2, big], dtype=np.int64),
+                   np.array([big, big], dtype=np.int64), np.array([n, n], dtype=np.int64), np.array([1, 1], dtype=np.int64),
+                   np.array(big, dtype=np.int64), np.array([3.0, 4.0]), np.array([3, 4], dtype=np.int32), [3, big], None]
+            for ew in ews:
+                for pl in (3, np.int64(2), np.array(4, dtype=np.int64), 0):
+                    calls.append((f'pad_edges n={n} {lay}', 'pad_edges', [yy(), pl], {'mode': 'extrapolate', 'extrapolate_window': ew}))
+                calls.append((f'_get_edges n={n} {lay}', '_get_edges', [yy(), 3], {'extrapolate_window': ew}))
+                calls.append((f'padded_convolve n={n} {lay}', 'padded_convolve', [yy(), np.array([0.25, 0.5, 0.25])],
+                              {'mode': 'extrapolate', 'extrapolate_window': ew}))
+            calls.append((f'pad_edges constant n={n}', 'pad_edges', [yy(), 3], {'mode': 'constant', 'constant_values': np.array([1.0, 2.0])}))
+            calls.append((f'pad_edges ramp n={n}', 'pad_edges', [yy(), np.array(3)], {'mode': 'linear_ramp', 'end_values': np.array([1.0, 2.0])}))
+            calls.append((f'padded_convolve reflect n={n}', 'padded_convolve', [yy(), np.ones(5) / 5], {}))
+            for kw in ({}, {'min_half_window': np.array(2, dtype=np.int64), 'max_half_window': np.array(big, dtype=np.int64)},
+                       {'increment': np.array(2, dtype=np.int64), 'max_hits': np.array(1, dtype=np.int64), 'window_tol': np.array(1e-3)},
+                       {'min_half_window': np.array(1, dtype=np.int64), 'max_half_window': np.array(3, dtype=np.int64)}):
+                calls.append((f'optimize_window n={n} {lay}', 'optimize_window', [yy()], dict(kw)))
+            for w in (None, lay1(0.2 + 0.8 * rs.random_sample(n), lay), lay1(np.ones(n), 'int'), [1.0] * n):
+                calls.append((f'whittaker_smooth n={n} {lay}', 'whittaker_smooth', [yy()],
+                              {'lam': np.array(10.0), 'diff_order': 2, 'weights': w}))
+                calls.append((f'pspline_smooth n={n} {lay}', 'pspline_smooth', [yy()],
+                              {'x_data': lay1(x, lay), 'lam': np.array([5.0]), 'num_knots': np.array(6, dtype=np.int64), 'weights': w}))
+            calls.append((f'relative_difference n={n}', 'relative_difference', [yy(), lay1(y * 1.01, lay)], {}))
+            calls.append((f'relative_difference zero n={n}', 'relative_difference', [lay1(np.zeros(n), lay), yy()], {'norm_order': 1}))
+            calls.append((f'gaussian n={n}', 'gaussian', [lay1(x, lay)], {'height': np.array(2.0), 'center': np.array([5.0]), 'sigma': np.array(1.5)}))
+        calls.append((f'gaussian_kernel n={n}', 'gaussian_kernel', [np.array(n, dtype=np.int64)], {'sigma': np.array(2.0)}))
+        calls.append((f'difference_matrix n={n}', 'difference_matrix', [np.array(n, dtype=np.int64)], {'diff_order': np.array(2, dtype=np.int64)}))
+    for (mm, nn) in ((7, 9), (12, 11)):
+        xx, zz = np.linspace(0, 1, mm), np.linspace(2, 5, nn)
+        y2 = 3 + xx[:, None] + zz[None, :] ** 2 + 0.05 * rs.standard_normal((mm, nn))
+        big = 10 * max(mm, nn)
+        for lay in ('c', 'strided', 'f'):
+            for ew in (None, np.array([2, 3], dtype=np.int64), np.array([big, 2], dtype=np.int64), np.array([2, 3, big, 1], dtype=np.int64),
+                       np.array(big, dtype=np.int64), np.array([1, 1], dtype=np.int64), [2, big]):
+                for pl in (2, np.array([2, 3], dtype=np.int64), np.array(1, dtype=np.int64), [1, 2]):
+                    calls.append((f'pad_edges2d {mm}x{nn} {lay}', 'pad_edges2d', [lay2(y2, lay), pl], {'mode': 'extrapolate', 'extrapolate_window': ew}))
+            calls.append((f'pad_edges2d edge {mm}x{nn}', 'pad_edges2d', [lay2(y2, lay), np.array([2, 2], dtype=np.int64)], {}))
+            calls.append((f'gaussian2d {mm}x{nn}', 'gaussian2d', [np.ascontiguousarray(np.broadcast_to(xx[:, None], (mm, nn))), np.ascontiguousarray(np.broadcast_to(zz[None, :], (mm, nn)))],
+                          {'height': np.array(2.0), 'center_x': np.array(0.5), 'sigma_x': np.array(0.2), 'sigma_z': np.array(1.0), 'center_z': np.array(3.0)}))
+            calls.append((f'optimize_window2d {mm}x{nn}', 'optimize_window', [lay2(y2, lay)], {'max_half_window': np.array(big, dtype=np.int64)}))
+    # every call owns its own argument objects (an array shared between calls would hide a change after the first one)
+    return [(d, f, a, copy.deepcopy(k)) for d, f, a, k in calls]
+
+
+def utils_cases(ctx, only=None):
+    """the public helper functions: byte-level snapshots of every argument (nested) before/after the call"""
+    from pybaselines import utils
+    calls = utils_call_list()
+    for idx, (desc, fname, args, kw) in enumerate(calls):
+        if only is not None and idx != only:
+            continue
+        func = getattr(utils, fname, None)
+        if func is None:
+            continue
+        owned = {f'arg{i}': a for i, a in enumerate(args)}
+        owned.update({'kw.' + k: v for k, v in kw.items()})
+        owned['kwargs-dict'] = kw
+        before = {k: snap(v) for k, v in owned.items()}
+        outcome = 'ok'
+        try:
+            with warnings.catch_warnings():
+                warnings.simplefilter('ignore')
+                func(*args, **kw)
+        except Exception as exc:   # noqa
+            outcome = type(exc).__name__
+        ctx.case(('utils', idx, desc), nontrivial=True, kind=f'oracle:utils:{fname}:{"raises" if outcome != "ok" else "returns"}')
+        for k, v in owned.items():
+            d = diff_path(before[k], snap(v), k)
+            if d:
+                ctx.fail(f'mutated:utils:{fname}:{k.split(".")[-1] if k.startswith("kw.") else k}',
+                         f'pybaselines.utils.{fname} changed a caller-owned argument ({d}); case: {desc}, '
+                         f'kwargs {({a: (b.tolist() if isinstance(b, np.ndarray) else b) for a, b in kw.items()})}; call '
+                         f'{"raised " + outcome if outcome != "ok" else "returned"}',
+                         {'kind': 'utils', 'idx': idx, 'desc': desc, 'function': fname})
+                break
+
+
 def search(ctx, budget):
     rng = ctx.rng
     modes = ['base', 'layout', 'layout', 'raise', 'param', 'branch', 'branch']
@@ -874,6 +1021,7 @@ def search(ctx, budget):
             except Exception as exc:   # noqa
                 ctx.note(f'oracle harness error on {name}: {type(exc).__name__}: {exc}')
     seq_param_cases(ctx)
+    utils_cases(ctx)
     return len(ctx.violations) + len(ctx.known_hit) - n0
 
 
@@ -931,14 +1079,27 @@ def run(ctx):
         budget = 14
     found = search(ctx, budget)
     ctx.known_replayed = {k for k, _ in ctx.known}
-    ctx.note(f'direct oracle budget x{budget}: {found} failing inputs; not covered: the functional interface '
-             '(pybaselines.whittaker.asls(...) etc., a thin wrapper over the classes), object arrays, concurrent use; '
+    ctx.note(f'direct oracle budget x{budget}: {found} failing inputs; not covered: object arrays, concurrent use; the functional '
+             'interface and the public utils functions are sampled; '
              'layout x argument x method combinations are sampled, not enumerated; the theorem covers all 95 registered '
              'bodies and all helpers except the decorator plumbing')
 
 
 def replay(rep):
     case = rep.get('case') or {}
+    if case.get('kind') == 'utils':
+        class U:
+            known, violations, samples = [], [], []
+
+            def case(self, *a, **k):
+                pass
+
+            def fail(self, key, what, case):
+                self.violations.append((key, what))
+        cu = U()
+        utils_cases(cu, only=case['idx'])
+        print('replay:', cu.violations[0][1] if cu.violations else 'property holds on this input')
+        return 1 if cu.violations else 0
     if case.get('kind') == 'seqparam':
         class C:
             known, violations, samples = [], [], []
